@@ -22,12 +22,12 @@ type msg struct {
 }
 
 type upd struct {
-	shard, replica     uint64
-	term, vote, commit uint64
-	save, committed    []ent
+	shard, replica      uint64
+	term, vote, commit  uint64
+	save, committed     []ent
 	snapIndex, snapTerm uint64
-	msgs               []msg
-	fast               bool
+	msgs                []msg
+	fast                bool
 }
 
 type key struct{ shard, replica uint64 }
@@ -343,6 +343,10 @@ var (
 // (not from node.go): the Term field is the sender's own term except for pre-vote
 // traffic and forwarded requests
 func monitorFree(t uint64) bool { return t == mtReplicate || t == mtPing }
+
+// SnapshotReceived is sent by the transport of the receiving host when the last chunk of a
+// snapshot has arrived (term 0, no claim), not by the step pipeline
+func outsidePipeline(t uint64) bool { return t == uint64(pb.SnapshotReceived) }
 func claimsTerm(t uint64) bool {
 	switch pb.MessageType(t) {
 	case pb.Replicate, pb.Ping:
@@ -593,6 +597,11 @@ func persistBeforeSend(evs []event) map[uint64]string {
 			if _, ok := res[e.worker]; !ok {
 				res[e.worker] = ""
 			}
+			if e.worker == 0 {
+				// a snapshot record saved by the snapshot worker (or a save found durable after a
+				// crash): not a step of the pipeline, carries no message
+				continue
+			}
 			var rest []msg
 			for _, m := range e.u.msgs {
 				if !monitorFree(m.typ) {
@@ -604,7 +613,7 @@ func persistBeforeSend(evs []event) map[uint64]string {
 			if _, ok := res[e.worker]; !ok {
 				res[e.worker] = ""
 			}
-			if monitorFree(e.m.typ) || res[e.worker] != "" {
+			if monitorFree(e.m.typ) || outsidePipeline(e.m.typ) || res[e.worker] != "" {
 				continue
 			}
 			p := pending[e.k]
